@@ -142,28 +142,47 @@ func c06Pass(t *rapid.T, g *gcState) {
 	time.Sleep(2 * time.Millisecond)
 	tick1 := time.Now()
 	_ = g.srv.VerifGCPass(tick1, tick0)
-	for _, rn := range gcRepos {
-		r, err := g.readRepo(rn)
-		if err != nil {
-			g.abandon("cannot read repository after the first pass")
-		}
-		mr := g.repo(rn)
-		for _, d := range sortedKeys(mr.blobs) {
-			if _, ok := r.blobs[d]; !ok {
-				delete(mr.blobs, d)
+	// the model follows what a pass removed
+	syncModel := func() {
+		for _, rn := range gcRepos {
+			r, err := g.readRepo(rn)
+			if err != nil {
+				g.abandon("cannot read repository after a pass")
 			}
-		}
-		for _, d := range sortedKeys(mr.mans) {
-			if _, ok := r.blobs[d]; !ok {
-				g.modelDeleteDigest(rn, d)
-			} else if m := g.do("HEAD", "/v2/"+rn+"/manifests/"+d, nil, hdr("Accept", acceptAll)); m.code == 404 {
-				g.modelDeleteDigest(rn, d)
+			mr := g.repo(rn)
+			for _, d := range sortedKeys(mr.blobs) {
+				if _, ok := r.blobs[d]; !ok {
+					delete(mr.blobs, d)
+				}
+			}
+			for _, d := range sortedKeys(mr.mans) {
+				if _, ok := r.blobs[d]; !ok {
+					g.modelDeleteDigest(rn, d)
+				} else if m := g.do("HEAD", "/v2/"+rn+"/manifests/"+d, nil, hdr("Accept", acceptAll)); m.code == 404 {
+					g.modelDeleteDigest(rn, d)
+				}
 			}
 		}
 	}
+	syncModel()
 	time.Sleep(3 * time.Millisecond)
 	g.noTimeJump = true
+	prevTick := tick1
 	for i, n := 0, rapid.IntRange(0, 4).Draw(t, "changesAfterFirstPass"); i < n; i++ {
+		// one ticker period (15 min, the default) may pass between two changes, with the tick that ends it: what was
+		// changed before it is 15 min old when the next change comes - younger than the grace period, older than a tick
+		if g.grace > 0 && i > 0 && rapid.IntRange(0, 2).Draw(t, "tickerPeriodPasses") == 0 {
+			g.advance(15 * time.Minute)
+			if g.abandoned {
+				return
+			}
+			tk := time.Now()
+			_ = g.srv.VerifGCPass(tk, tk.Add(-15*time.Minute))
+			prevTick = tk
+			syncModel()
+			g.class("ticker-period-between-changes")
+			g.logf("scheduled pass at the end of that period")
+		}
 		g.class("changes-between-passes")
 		g.outsideRepeat = true
 		switch rapid.IntRange(0, 3).Draw(t, "changeKind") {
@@ -183,7 +202,6 @@ func c06Pass(t *rapid.T, g *gcState) {
 	// With a grace period: ticks that fall between a change and the end of its grace period keep the young garbage -
 	// and must leave the repository due for the pass after the grace period; then the grace period plus half a ticker
 	// period (15 min, the default) elapses and the pass under test runs with the tick before it as its predecessor.
-	prevTick := tick1
 	if g.grace >= 0 {
 		for i, n := 0, rapid.IntRange(0, 2).Draw(t, "ticksInsideGrace"); i < n; i++ {
 			time.Sleep(time.Millisecond)
@@ -193,9 +211,20 @@ func c06Pass(t *rapid.T, g *gcState) {
 			g.class("tick-inside-grace")
 			g.logf("scheduled pass while the changes are younger than the grace period")
 		}
+		// the ticker goes on: a tick 7 min after the last change, then one every 15 min, each with its predecessor,
+		// until the grace period of the last change has elapsed (what was changed a ticker period earlier meets the
+		// tick that is due for it on the way); the tick after that is the pass under test
 		time.Sleep(time.Millisecond)
-		for _, rn := range gcRepos {
-			_ = g.srv.VerifAgeBlobs(rn, g.grace+7*time.Minute)
+		age := func(d time.Duration) {
+			for _, rn := range gcRepos {
+				_ = g.srv.VerifAgeBlobs(rn, d)
+			}
+		}
+		age(7 * time.Minute)
+		for el := 7 * time.Minute; el <= g.grace; el += 15 * time.Minute {
+			tk := time.Now()
+			_ = g.srv.VerifGCPass(tk, tk.Add(-15*time.Minute))
+			age(15 * time.Minute)
 		}
 		prevTick = time.Now().Add(-15 * time.Minute)
 	}
